@@ -307,7 +307,11 @@ func c17Spawn(req interface{}, out interface{}) error {
 }
 
 func c17SpawnBin(bin string, req interface{}, out interface{}) error {
-	cmd := exec.Command(bin, "sched")
+	// one execution takes well under a second: a minute without an answer means it will never come
+	ctx, cancel := context.WithTimeout(context.Background(), 30*time.Second)
+	defer cancel()
+	cmd := exec.CommandContext(ctx, bin, "sched")
+	cmd.WaitDelay = 3 * time.Second
 	in, _ := json.Marshal(req)
 	cmd.Stdin = bytes.NewReader(in)
 	cmd.Env = append(os.Environ(), "GOMAXPROCS=2")
@@ -340,6 +344,7 @@ func c17Deterministic(op c17Op) bool {
 }
 
 var c17RefCache = map[string][]string{}
+var c17RefFailed = map[string]string{}
 var c17RefGlobals = map[string]string{}
 
 func c17Refs(si int) ([]string, string) {
@@ -353,7 +358,10 @@ func c17Refs(si int) ([]string, string) {
 	for t := range sc.Threads {
 		var out map[string]string
 		if err := c17Spawn(map[string]interface{}{"scenario": si, "alone": t}, &out); err != nil {
-			panic(harnessBug{"sequential reference: " + err.Error()})
+			// the call does not even return (or kills its process) when it runs alone
+			c17RefFailed[key] = fmt.Sprintf("thread %d (%s) alone in a fresh process: %v", t, sc.Threads[t].Kind, err)
+			refs = append(refs, "<no sequential answer>")
+			continue
 		}
 		refs = append(refs, out["result"])
 		glob = out["globals"]
@@ -363,7 +371,8 @@ func c17Refs(si int) ([]string, string) {
 			if light := os.Getenv("VERIF_LIGHT_BIN"); light != "" {
 				var lo map[string]string
 				if err := c17SpawnBin(light, map[string]interface{}{"scenario": si, "alone": t}, &lo); err != nil {
-					panic(harnessBug{"sequential reference on the plain build: " + err.Error()})
+					c17RefFailed[key] = fmt.Sprintf("thread %d (%s) alone in a fresh process of the plain build: %v", t, sc.Threads[t].Kind, err)
+					continue
 				}
 				if lo["result"] != out["result"] {
 					panic(harnessBug{fmt.Sprintf("instrumented build diverges from the plain build on the sequential answer of %s thread %d:\n instr: %s\n plain: %s", sc.Name, t, tail(out["result"], 300), tail(lo["result"], 300))})
@@ -389,6 +398,10 @@ func c17Judge(c *Ctx, si int, e c17Exec, bound int, report bool) string {
 		c.Violate(Violation{Oracle: "concurrency", Class: class, Expected: exp, Observed: obs, Detail: detail,
 			Features: map[string]string{"symptom": class, "scenario": sc.Name, "sigx": "scenario=" + sc.Name},
 			Case:     c17Case{Scenario: si, Name: sc.Name, Schedule: choicesOf(e.Trace), Bound: bound}})
+	}
+	if why := c17RefFailed[fmt.Sprint(si)]; why != "" {
+		viol("hang", "", "", "a call of the scenario does not return when it runs alone: "+why)
+		return outcome
 	}
 	if e.Deadlock {
 		viol("deadlock", "", "", "no enabled thread while some thread has not finished")
